@@ -83,6 +83,7 @@ def main(argv=None):
     from concurrent.futures import ProcessPoolExecutor, as_completed
 
     harness_msgs = []
+    health_warnings = []
     ctx = mp.get_context("fork")
     with ProcessPoolExecutor(max_workers=max(1, min(args.workers, len(tasks))), mp_context=ctx) as ex:
         futs = {ex.submit(core.run_task, *t): t for t in tasks}
@@ -137,7 +138,10 @@ def main(argv=None):
         for lab, floor in s.essential.items():
             frac = d["labels"].get(lab, 0) / max(1, d["ok"])
             if d["ok"] >= 20 and frac < floor:
-                harness_msgs.append(f"generator health: sub-check {name}: label {lab!r} in {frac:.1%} of cases < floor {floor:.0%}")
+                msg = f"generator health: sub-check {name}: label {lab!r} in {frac:.1%} of cases < floor {floor:.0%}"
+                health_warnings.append(msg)
+                if d["labels"].get(lab, 0) == 0 and d["ok"] >= 200:
+                    harness_msgs.append(msg + " (never produced)")
 
     # ------------------------------------------------------------------ known findings
     known_lines = []
@@ -186,6 +190,7 @@ def main(argv=None):
         "known_findings_reported": known_lines,
         "uncovered": getattr(mod, "uncovered", lambda: [])(),
         "sensitivity": getattr(mod, "SENSITIVITY", []),
+        "generator_health_warnings": health_warnings,
         "inconclusive_budget_hit": sorted(k for k, d in per_sub.items() if d["budget_hit"]),
     }
     ev = {
@@ -208,6 +213,8 @@ def main(argv=None):
         if os.environ.get("VERIF_VERBOSE"):
             print("      labels:", json.dumps(d["labels"], sort_keys=True))
             print("      rejects:", json.dumps(d["rejects"], sort_keys=True))
+    for w in health_warnings:
+        print("   WARNING", w)
     for line in known_lines:
         print(line)
     for path, f in violations:
